@@ -347,7 +347,7 @@ theorem PSpecW.wrap {fl : Bool} {mo : Option Nat} {tmpl : Term} {max : Nat} {pro
     the instantiated goal (if it is not a variable: instantiation error) is a body of the fragment -/
 def callOK (fl : Bool) (env : Env) (g : Term) : Prop :=
   ∃ g0, resolve inner env g = some g0 ∧
-    ((∃ v, g0 = .var v) ∨ ∃ g', applyAll inner env g0 = some g' ∧ wfT g' = true ∧ bodyS fl g' = true)
+    ((∃ v, g0 = .var v) ∨ ∃ g', applyAll inner env g0 = some g' ∧ wfT g' = true ∧ dbodyS fl g' = true)
 
 /-- the context `arrive` binds variable 0 to -/
 def indicator (f : String) (n : Nat) : Term := .app "/" (.cons (.atom f) (.cons (.int n) .nil))
@@ -474,6 +474,70 @@ theorem conjuncts_rename (ρ : Nat → Nat) (b : Term) :
     rw [h1]
     cases t <;> simp [Term.rename, Term.subst, SLD.wrapVar, SLD.call1, Args.subst]
 
+theorem semi_rename_inv {t : Term} {ρ : Nat → Nat} {f : String} {x y : Term}
+    (h : t.rename ρ = .app f (.cons x (.cons y .nil))) :
+    ∃ a b, t = .app f (.cons a (.cons b .nil)) ∧ a.rename ρ = x ∧ b.rename ρ = y := by
+  obtain ⟨as', rfl, has⟩ := rename_eq_app h
+  obtain ⟨a, bs, rfl, ha, hb⟩ := subst_eq_cons has
+  obtain ⟨b, bs', rfl, hb1, hb2⟩ := subst_eq_cons hb
+  rw [subst_eq_nil hb2]
+  exact ⟨a, b, rfl, ha, hb1⟩
+
+theorem disjuncts_plain (a b : Term) (hna : ∀ c t, a ≠ .app "->" (.cons c (.cons t .nil))) :
+    SLD.disjuncts (.app ";" (.cons a (.cons b .nil))) = a :: SLD.disjuncts b := by
+  conv => lhs; unfold SLD.disjuncts
+  split
+  · rename_i c t e heq
+    simp only [Term.app.injEq, Args.cons.injEq, true_and, and_true] at heq
+    exact absurd heq.1 (hna c t)
+  · rename_i a' b' _ heq
+    simp only [Term.app.injEq, Args.cons.injEq, true_and, and_true] at heq
+    obtain ⟨rfl, rfl⟩ := heq
+    rfl
+  · rename_i h2
+    exact absurd rfl (h2 _ _)
+
+theorem disjuncts_other (t : Term) (h2 : ∀ a b, t ≠ .app ";" (.cons a (.cons b .nil))) :
+    SLD.disjuncts t = [t] := by
+  unfold SLD.disjuncts
+  split
+  · rename_i c t' e; exact absurd rfl (h2 _ _)
+  · rename_i a b _; exact absurd rfl (h2 _ _)
+  · rfl
+
+theorem disjuncts_rename (ρ : Nat → Nat) (b : Term) :
+    SLD.disjuncts (b.rename ρ) = (SLD.disjuncts b).map (Term.rename ρ) := by
+  fun_induction SLD.disjuncts b with
+  | case1 c t e => rfl
+  | case2 a b hna ih =>
+    have e : (Term.app ";" (.cons a (.cons b .nil))).rename ρ = .app ";" (.cons (a.rename ρ) (.cons (b.rename ρ) .nil)) := rfl
+    rw [e]
+    have hna' : ∀ c t, a.rename ρ ≠ .app "->" (.cons c (.cons t .nil)) := by
+      intro c t heq
+      obtain ⟨c', t', rfl, _, _⟩ := semi_rename_inv heq
+      exact hna c' t' rfl
+    rw [disjuncts_plain _ _ hna', ih]; rfl
+  | case3 t h1 h2 =>
+    have h2' : ∀ a b, t.rename ρ ≠ .app ";" (.cons a (.cons b .nil)) := by
+      intro a b heq
+      obtain ⟨a', b', rfl, _, _⟩ := semi_rename_inv heq
+      exact h2 a' b' rfl
+    rw [disjuncts_other _ h2']; rfl
+
+theorem disjuncts_vars {b dj : Term} {x : Nat} (hd : dj ∈ SLD.disjuncts b) (hx : dj.hasVar x = true) :
+    b.hasVar x = true := by
+  fun_induction SLD.disjuncts b with
+  | case1 c t e =>
+    simp only [List.mem_singleton] at hd
+    subst hd; exact hx
+  | case2 a b hna ih =>
+    rcases List.mem_cons.1 hd with rfl | hd
+    · simp [Term.hasVar, Args.hasVar, hx]
+    · simp [Term.hasVar, Args.hasVar, ih hd]
+  | case3 t h1 h2 =>
+    simp only [List.mem_singleton] at hd
+    subst hd; exact hx
+
 theorem goalS_rename (fl : Bool) (ρ : Nat → Nat) (t : Term) : goalS fl (t.rename ρ) = goalS fl t := by
   simp only [goalS, stepGoal_rename]
   have : (t.rename ρ == Term.atom "!") = (t == Term.atom "!") := by
@@ -495,6 +559,40 @@ theorem bodyS_rename (fl : Bool) (ρ : Nat → Nat) (b : Term) : bodyS fl (b.ren
   congr 1
   funext t
   simp only [Function.comp, goalS_rename]
+
+theorem dbodyS_rename (fl : Bool) (ρ : Nat → Nat) (b : Term) : dbodyS fl (b.rename ρ) = dbodyS fl b := by
+  unfold dbodyS
+  rw [disjuncts_rename, List.all_map]
+  congr 1
+  funext t
+  simp only [Function.comp, bodyS_rename]
+
+theorem dbodyS_isGoal {fl : Bool} {b : Term} (h : dbodyS fl b = true) (hnv : ∀ v, b ≠ .var v) : SLD.isGoal b = true := by
+  cases b with
+  | var v => exact absurd rfl (hnv v)
+  | atom _ => rfl
+  | app _ _ => rfl
+  | int i => simp [dbodyS, SLD.disjuncts, bodyS, SLD.conjuncts, SLD.wrapVar, goalS, stepGoal, ctlGoal, hornGoal] at h
+  | flt i => simp [dbodyS, SLD.disjuncts, bodyS, SLD.conjuncts, SLD.wrapVar, goalS, stepGoal, ctlGoal, hornGoal] at h
+  | str i => simp [dbodyS, SLD.disjuncts, bodyS, SLD.conjuncts, SLD.wrapVar, goalS, stepGoal, ctlGoal, hornGoal] at h
+
+/-- `call(b)`, the top-level disjuncts of `b` bodies of the fragment: one alternative per disjunct -/
+theorem solve_call1M (prog : List Term) (n d nv l : Nat) (b : Term) (rest : List SLD.Frame) (q : Term) (limit : Nat)
+    {fl : Bool} (hb : dbodyS fl b = true) (hw : ∀ f, b ≠ .app f .nil) (hnv : ∀ v, b ≠ .var v) :
+    SLD.solve false prog (n + 1) d nv (.goal (SLD.call1 b) l :: rest) q limit =
+      SLD.solveAlts false prog n d nv ((SLD.disjuncts b).map (fun x => .frames (SLD.bodyFrames false x d))) rest q
+        limit := by
+  have hok : SLD.okBody false b = true := by
+    simp only [SLD.okBody, Bool.false_eq_true, if_false, List.all_eq_true]
+    intro dj hdj t ht
+    simp only [dbodyS, List.all_eq_true] at hb
+    have := hb dj hdj
+    simp only [bodyS, List.all_eq_true] at this
+    exact goalS_isGoal (this t ht)
+  rw [SLD.solve]
+  · simp only [SLD.call1, SLD.functor, Args.toList, List.length_nil, Nat.not_lt_zero, if_false,
+      addArgs_nil' hw hnv (dbodyS_isGoal hb hnv), hok, if_true, SLD.bodyAlts, Bool.false_eq_true]
+  · intro v hv; cases hv
 
 /-! ### the bootstrap clause `true.` -/
 
